@@ -247,3 +247,44 @@ TWINS["C04_twin_try_finally_flag"] = ("C04", [(P, """        try:
                     single_memo_bak, variadic_memo_bak, pytree_memo_bak, arg_memo_bak
                 )
         return out""")])
+
+# ------------------------------------------------------------------------- C06
+SEEDS["C06_plain_object_storage"] = ("C06", [(S, "_treepath_storage = threading.local()", "class _Plain:\n    pass\n\n\n_treepath_storage = _Plain()")], "C06")
+SEEDS["C06_module_level_stack"] = ("C06", [(S, """    try:
+        memo_stack = _shape_storage.memo_stack
+    except AttributeError:
+        # Can't be done when `_stack_storage` is created for reasons I forget.
+        memo_stack = _shape_storage.memo_stack = []""", """    memo_stack = _memo_stack"""), (S, "_shape_storage = threading.local()", "_shape_storage = threading.local()\n_memo_stack = []")], "C06.2")
+SEEDS["C06_flag_in_module_global"] = ("C06", [(S, """def set_treeflatten_memo():
+    _treeflatten_storage.value = True""", """_flattening = False
+
+
+def set_treeflatten_memo():
+    global _flattening
+    _flattening = True
+    _treeflatten_storage.value = True""")], "C06")
+SEEDS["C06_dtype_name_cache"] = ("C06", [(A, """        if hasattr(obj.dtype, "type") and hasattr(obj.dtype.type, "__name__"):
+            # JAX, numpy
+            dtype = obj.dtype.type.__name__""", """        if type(obj.dtype) in _dtype_name_cache:
+            dtype = _dtype_name_cache[type(obj.dtype)]
+        elif hasattr(obj.dtype, "type") and hasattr(obj.dtype.type, "__name__"):
+            # JAX, numpy
+            dtype = obj.dtype.type.__name__
+            _dtype_name_cache[type(obj.dtype)] = dtype"""), (A, "_any_dtype = object()", "_any_dtype = object()\n_dtype_name_cache = {}")], "C06.2")
+SEEDS["C06_lru_cache_on_check_dims"] = ("C06", [(A, """def _dtype_is_numpy_struct_array(dtype):""", """@ft.lru_cache(maxsize=None)
+def _dtype_is_numpy_struct_array(dtype):""")], "C06.4")
+SEEDS["C06_class_level_last_error"] = ("C06", [(A, """        if check == "":
+            return check
+        else:""", """        cls._last_check = check
+        if check == "":
+            return check
+        else:""")], "C06.2")
+SEEDS["C06_shared_scratch_dict_passed"] = ("C06", [(A, "check = cls._check_shape(obj, single_memo, variadic_memo, arg_memo)", "check = cls._check_shape(obj, single_memo, _scratch_variadic, arg_memo)"), (A, "_any_dtype = object()", "_any_dtype = object()\n_scratch_variadic = {}")], "C06.3")
+TWINS["C06_twin_local_cache"] = ("C06", [(A, """        if hasattr(obj.dtype, "type") and hasattr(obj.dtype.type, "__name__"):
+            # JAX, numpy
+            dtype = obj.dtype.type.__name__""", """        scratch = {}
+        scratch["t"] = 1
+        if hasattr(obj.dtype, "type") and hasattr(obj.dtype.type, "__name__"):
+            # JAX, numpy
+            dtype = obj.dtype.type.__name__""")])
+TWINS["C06_twin_new_thread_local"] = ("C06", [(S, "_treeflatten_storage = threading.local()", "_treeflatten_storage = threading.local()\n_extra_storage = threading.local()\n\n\ndef _touch_extra():\n    _extra_storage.value = 1\n")])
